@@ -177,11 +177,19 @@ fn lib_b2f() {
         let bytes = w.into_raw();
         let mut rd = ArchiveReader::new(Cursor::new(bytes)).unwrap();
         for (name, want) in [("b", &db), ("a", &da), ("b", &db)] {
-            for blen in [1usize, 3, 8, 64] {
+            // blen 0 stands for: a read with an EMPTY buffer before every 3-byte read (it must return
+            // Ok(0) and change nothing: same bytes afterwards, at every block edge as well)
+            for blen in [1usize, 3, 8, 64, 0] {
                 let mut f = rd.get_file(name.to_string()).unwrap().unwrap();
                 let mut out = Vec::new();
-                let mut buf = vec![0u8; blen];
+                let mut buf = vec![0u8; if blen == 0 { 3 } else { blen }];
                 loop {
+                    if blen == 0 {
+                        match f.data.read(&mut []) {
+                            Ok(0) => {}
+                            other => return Some(format!("a read with an empty buffer on file {name} after {} bytes returned {other:?}", out.len())),
+                        }
+                    }
                     match f.data.read(&mut buf) {
                         Ok(0) => break,
                         Ok(k) => out.extend_from_slice(&buf[..k]),
@@ -189,7 +197,7 @@ fn lib_b2f() {
                     }
                 }
                 if &out != want {
-                    return Some(format!("file {name} read with a {blen}-byte buffer gave {} bytes, expected {}", out.len(), want.len()));
+                    return Some(format!("file {name} read with a {blen}-byte buffer (0 = empty-buffer reads interleaved with 3-byte reads) gave {} bytes, expected {}", out.len(), want.len()));
                 }
             }
         }
